@@ -12,6 +12,23 @@
 #include "N2kMessages.h"
 #include <deque>
 #include <map>
+#include <sys/mman.h>
+#include <unistd.h>
+
+// Arrays the library indexes with values derived from bus traffic (Devices[iDev], N2kCANMsgBuf[i], CANSendFrameBuf[i]) are moved,
+// right after the library allocated and initialised them, into a mapping that is fenced by inaccessible pages, so that an index of
+// -1 (Devices: start abuts the fence) or == count (others: end abuts the fence) faults deterministically instead of silently reading
+// a neighbouring heap object.  The objects are plain data (no self references), so a byte copy relocates them.
+static void *fenced_copy(const void *src, size_t bytes, bool fence_at_start) {
+  size_t pg = (size_t)sysconf(_SC_PAGESIZE);
+  size_t body = ((bytes + pg - 1) / pg) * pg;
+  char *m = (char *)mmap(0, body + 2 * pg, PROT_READ | PROT_WRITE, MAP_PRIVATE | MAP_ANONYMOUS, -1, 0);
+  if (m == MAP_FAILED) return 0;
+  mprotect(m, pg, PROT_NONE); mprotect(m + pg + body, pg, PROT_NONE);
+  char *dst = fence_at_start ? m + pg : m + pg + body - bytes;
+  memcpy(dst, src, bytes);
+  return dst;
+}
 
 struct RxFrame { unsigned long id; unsigned char len; unsigned char buf[8]; };
 static std::string *g_out = 0;
@@ -39,6 +56,13 @@ public:
   }
 };
 
+static void *g_dev = 0, *g_slots = 0, *g_sendbuf = 0;
+static void relocate(tMock *n, int ndev) {
+  if (n->Devices && (void *)n->Devices != g_dev) { void *p = fenced_copy(n->Devices, sizeof(tNMEA2000::tInternalDevice) * ndev, true); if (p) { n->Devices = (tNMEA2000::tInternalDevice *)p; g_dev = p; } }
+  if (n->N2kCANMsgBuf && (void *)n->N2kCANMsgBuf != g_slots) { void *p = fenced_copy(n->N2kCANMsgBuf, sizeof(tN2kCANMsg) * n->MaxN2kCANMsgs, false); if (p) { n->N2kCANMsgBuf = (tN2kCANMsg *)p; g_slots = p; } }
+  if (n->CANSendFrameBuf && (void *)n->CANSendFrameBuf != g_sendbuf) { void *p = fenced_copy(n->CANSendFrameBuf, sizeof(tNMEA2000::tCANSendFrame) * n->MaxCANSendFrames, false); if (p) { n->CANSendFrameBuf = (tNMEA2000::tCANSendFrame *)p; g_sendbuf = p; } }
+}
+
 static void handle_msg(const tN2kMsg &m) {
   if (g_log && g_out) {
     char t[96]; snprintf(t, 96, "dlv:%u:%lu:%u:%u:%d:", (unsigned)m.Priority, m.PGN, (unsigned)m.Source, (unsigned)m.Destination, m.DataLen); *g_out += t;
@@ -46,6 +70,11 @@ static void handle_msg(const tN2kMsg &m) {
   }
 }
 static void on_open() { if (g_log && g_out) *g_out += "note:open "; }
+static std::vector<unsigned long> g_iso_accept;
+static bool iso_handler(unsigned long pgn, unsigned char requester, int idev) {
+  for (unsigned long p : g_iso_accept) if (p == pgn) { if (g_log && g_out) { char t[48]; snprintf(t, 48, "note:iso:%lu ", pgn); *g_out += t; } return true; }
+  return false;
+}
 
 static std::vector<unsigned long> *plist(const std::string &v) {
   std::vector<unsigned long> *l = new std::vector<unsigned long>();   // lives as long as the node (lists are referenced, not copied)
@@ -82,12 +111,17 @@ int main() {
     if (kv.count("sf1")) n->ExtendSingleFrameMessages(plist(kv["sf1"])->data());
     n->SetMode((tNMEA2000::tN2kMode)mode, src);
     for (int i = 0; i < ndev; i++) { char k[16]; snprintf(k, 16, "tx%d", i); if (kv.count(k)) n->ExtendTransmitMessages(plist(kv[k])->data(), i); }
+    relocate(n, ndev);
+    for (int i = 0; i < ndev; i++) { char k[16]; snprintf(k, 16, "rx%d", i); if (kv.count(k)) n->ExtendReceiveMessages(plist(kv[k])->data(), i); }
+    if (kv.count("ok") && kv["ok"] == "1") n->SetHandleOnlyKnownMessages(true);
+    if (kv.count("iso")) { std::vector<unsigned long> *l = plist(kv["iso"]); g_iso_accept.assign(l->begin(), l->end() - 1); n->SetISORqstHandler(iso_handler); }
+    bool hb = kv.count("hb") && kv["hb"] == "1";
     n->SetMsgHandler(handle_msg);
     n->SetOnOpen(on_open);
     n->SetForwardStream(0);
     if (!cold) {
-      for (int k = 0; k < 700; k++) { n->ParseMessages(); verif_now_ms++; }
-      n->SetHeartbeatIntervalAndOffset(0, 0);            // heartbeat off unless the case asks for it
+      for (int k = 0; k < 700; k++) { n->ParseMessages(); relocate(n, ndev); verif_now_ms++; }
+      if (!hb) n->SetHeartbeatIntervalAndOffset(0, 0);   // heartbeat off unless the case asks for it
       for (int i = 0; i < ndev; i++) n->IsAddressClaimStarted(i);
       verif_now_ms = t0;
     }
@@ -112,24 +146,40 @@ int main() {
       else if (t[0] == "F") n->SendFrames();
       else if (t[0] == "C") { int i = atoi(t[1].c_str()); if (i >= 0 && i < ndev) n->StartAddressClaim(i); }
       else if (t[0] == "P") n->ParseMessages();
+      else if (t[0] == "H" && t.size() >= 3) n->SetHeartbeatIntervalAndOffset((uint32_t)tounum(t[1]), (uint32_t)tounum(t[2]));
       else if (t[0] == "R" && t.size() >= 4) {
         RxFrame f; f.id = strtoul(t[1].c_str(), 0, 16); f.len = (unsigned char)atoi(t[2].c_str());
         std::vector<uint8_t> d = unhex(t[3]); memset(f.buf, 0, 8); for (size_t i = 0; i < d.size() && i < 8; i++) f.buf[i] = d[i];
         n->rx.push_back(f);
       }
       else out += "badop ";
+      relocate(n, ndev);
     }
     g_log = false;
     // state dump
-    char b[128];
-    snprintf(b, 128, "| open=%d q=%u/%u/%u ac=%d", (int)n->OpenState, (unsigned)n->MaxCANSendFrames, (unsigned)n->CANSendFrameBufferRead, (unsigned)n->CANSendFrameBufferWrite, (int)n->AddressChanged); out += b;
+    char b[256];
+    if (n->CANSendFrameBuf) snprintf(b, 256, "| open=%d q=%u/%u/%u", (int)n->OpenState, (unsigned)n->MaxCANSendFrames, (unsigned)n->CANSendFrameBufferRead, (unsigned)n->CANSendFrameBufferWrite);
+    else snprintf(b, 256, "| open=%d q=-", (int)n->OpenState);
+    out += b;
+    snprintf(b, 256, " ac=%d dic=%d", (int)n->AddressChanged, (int)n->DeviceInformationChanged); out += b;
     for (int i = 0; i < ndev && n->Devices; i++) {
       tNMEA2000::tInternalDevice &d = n->Devices[i];
-      snprintf(b, 128, " dev%d{src=%u end=%u claim=%s tp=%lu dt=%u cells=", i, (unsigned)d.N2kSource, (unsigned)d.AddressClaimEndSource, sched(d.AddressClaimTimer).c_str(),
-               d.PendingTPMsg.PGN, (unsigned)d.NextDTSequence); out += b;
-      if (d.PGNSequenceCounters == 0) out += "none"; else for (size_t k = 0; k < d.MaxPGNSequenceCounters; k++) { snprintf(b, 128, "%s%lx", k ? "," : "", d.PGNSequenceCounters[k]); out += b; }
+      snprintf(b, 256, " dev%d{src=%u end=%u name=%llx claim=%s tp=%lu dt=%u pc=%s pp=%s pf=%s hb=", i, (unsigned)d.N2kSource, (unsigned)d.AddressClaimEndSource,
+               (unsigned long long)d.DeviceInformation.GetName(), sched(d.AddressClaimTimer).c_str(), d.PendingTPMsg.PGN, (unsigned)d.NextDTSequence,
+               sched(d.PendingIsoAddressClaim).c_str(), sched(d.PendingProductInformation).c_str(), sched(d.PendingConfigurationInformation).c_str()); out += b;
+      if (d.HeartbeatScheduler.IsDisabled()) snprintf(b, 256, "off"); else snprintf(b, 256, "%llu", (unsigned long long)d.HeartbeatScheduler.GetNextTime()); out += b;
+      snprintf(b, 256, "/%u/%u/%u cells=", (unsigned)d.HeartbeatScheduler.GetPeriod(), (unsigned)d.HeartbeatScheduler.GetOffset(), (unsigned)d.HeartbeatSequence); out += b;
+      if (d.PGNSequenceCounters == 0) out += "none"; else for (size_t k = 0; k < d.MaxPGNSequenceCounters; k++) { snprintf(b, 256, "%s%lx", k ? "," : "", d.PGNSequenceCounters[k]); out += b; }
       out += "}";
     }
+    out += " slots[";
+    for (int i = 0; n->N2kCANMsgBuf && i < n->MaxN2kCANMsgs; i++) {
+      tN2kCANMsg &c = n->N2kCANMsgBuf[i];
+      if (c.FreeMsg) continue;
+      snprintf(b, 256, "%d:%lu:%u:%u:%d:%d:%u:%u:%lu:%u:%u ", i, c.N2kMsg.PGN, (unsigned)c.N2kMsg.Source, (unsigned)c.N2kMsg.Destination, (int)c.N2kMsg.IsTPMessage(), c.N2kMsg.DataLen,
+               (unsigned)c.CopiedLen, (unsigned)c.LastFrame, c.N2kMsg.MsgTime, (unsigned)c.TPMaxPackets, (unsigned)c.TPRequireCTS); out += b;
+    }
+    out += "]";
     printf("%s\n", out.c_str());
     fflush(stdout);
     // the node is deliberately not destroyed: tNMEA2000 has no destructor that releases its buffers
